@@ -300,7 +300,8 @@ def _seq(w, mod, bt, v, ch):
             add_present.append(_present(mod, a, v))
     unknown = 0
     if bt.ext:
-        unknown = ch.pick(3, 'unknown_ext')
+        # 1: one unknown addition; 2: one with a two-octet length; 3: two unknown additions, absent then present; 4: present, absent, present
+        unknown = ch.pick(5, 'unknown_ext')
         if unknown:
             ch.features.add('unknown_ext')
         w.put(1 if (any(add_present) or unknown) else 0, 1)
@@ -315,7 +316,7 @@ def _seq(w, mod, bt, v, ch):
             continue
         encode_into(w, mod, m.type, v[m.name], ch)
     if bt.ext and (any(add_present) or unknown):
-        bitmap = list(add_present) + ([True] if unknown else [])
+        bitmap = list(add_present) + {0: [], 1: [True], 2: [True], 3: [False, True], 4: [True, False, True]}[unknown]
         put_ns_length(w, len(bitmap))
         for p in bitmap:
             w.put(1 if p else 0, 1)
@@ -334,8 +335,11 @@ def _seq(w, mod, bt, v, ch):
             else:
                 encode_into(inner, mod, a.type, v[a.name], ch)
             open_type(w, inner)
-        if unknown == 1:
+        if unknown in (1, 3):
             put_octets_with_len(w, b'\x01\x02\x03')
+        elif unknown == 4:
+            put_octets_with_len(w, b'\x01\x02\x03')
+            put_octets_with_len(w, b'\x04\x05')
         elif unknown == 2:
             put_octets_with_len(w, bytes(range(1, 131)))   # 130 octets: two-octet length determinant
 
